@@ -137,7 +137,7 @@ class LifeWorld(object):
             except Exception:
                 pass
         elif k == "gcode":
-            self.hook_gcode(op["text"])
+            self.hook_gcode(op["text"], op.get("tags"))
         elif k == "at":
             self.hook_at(op["cmd"], op["params"], op.get("streaming", False))
         elif k == "script":
@@ -145,14 +145,15 @@ class LifeWorld(object):
         else:
             raise KeyError(k)
 
-    def hook_gcode(self, cmd):
+    def hook_gcode(self, cmd, tags=None):
         from octoprint.util.comm import gcode_and_subcode_for_cmd
         g, s = gcode_and_subcode_for_cmd(cmd)
         snap = state_snapshot(self.plugin.state)
         active = self.life.active
         self.n += 1
         try:
-            ret = self.plugin.handleGcodeQueuing(self.comm, "queuing", cmd, None, g, subcode=s, tags=set())
+            ret = self.plugin.handleGcodeQueuing(self.comm, "queuing", cmd, None, g, subcode=s,
+                                                 tags=set(tags or ()))
             exc = None
         except Exception as ex:
             ret, exc = None, "%s: %s" % (type(ex).__name__, ex)
@@ -168,9 +169,17 @@ class LifeWorld(object):
                 self.fail("inactive_tracked", "no print active: gcode hook changed the tracking state on %r" % (cmd,))
         else:
             self.stats["probe:gcode_while_active"] += 1
-            if g in ("G28", "G90", "G91", "G20", "G21") and exc is None and \
-                    state_snapshot(self.plugin.state) == snap and g != "G90" and g != "G21":
-                pass
+            # the gate is open: whatever its origin (file, script, terminal), a command that sets a mode is tracked
+            pos = self.plugin.state.position
+            want = {"G90": ("absoluteMode", True), "G91": ("absoluteMode", False),
+                    "G21": ("unitMultiplier", 1.0), "G20": ("unitMultiplier", 25.4)}.get(g)
+            if exc is None and want is not None and cmd.strip().upper() == g and \
+                    getattr(pos.X_AXIS, want[0]) != want[1]:
+                self.fail("active_untracked", "a print is active but %r (tags %r) was not tracked: X axis %s is %r"
+                          % (cmd, sorted(tags or ()), want[0], getattr(pos.X_AXIS, want[0])))
+            if exc is None and cmd.strip().upper() == "G28" and pos.X_AXIS.current is None:
+                self.fail("active_untracked", "a print is active but %r (tags %r) was not tracked: X is unknown"
+                          % (cmd, sorted(tags or ())))
 
     def hook_at(self, cmd, params, streaming):
         snap = state_snapshot(self.plugin.state)
@@ -254,7 +263,15 @@ def gen_life(rng):
         elif r < 0.48 and adversarial:
             ops.append({"op": "bus", "do": rng.choice(["dup", "drop", "swap"])})
         elif r < 0.70:
-            ops.append({"op": "gcode", "text": rng.choice(GCODES)})
+            o = {"op": "gcode", "text": rng.choice(GCODES)}
+            if rng.random() < 0.6:
+                # the tags OctoPrint attaches: a line of the file, of a GCODE script, from the terminal / API
+                o["tags"] = rng.choice([["source:file", "filepos:1234", "fileline:56"],
+                                        ["source:script", "script:afterPrintPaused"],
+                                        ["source:script", "script:beforePrintResumed"],
+                                        ["source:api", "trigger:printer.commands"],
+                                        ["source:plugin", "plugin:other"]])
+            ops.append(o)
         elif r < 0.78:
             ops.append({"op": "at", "cmd": rng.choice(["ExcludeRegion", "ExcludeRegion", "foo", ""]),
                         "params": rng.choice(["disable", "enable", "off", "on", "", "bogus"]),
